@@ -1,10 +1,13 @@
 (* C01 — the atomic sections of the pod handlers (cache add/remove, assigned flag, request
    propagation, used propagation) preserve the invariant minus "quiescence" of the pod in flight. *)
 From Coq Require Import List ZArith Bool Lia.
-From Verif Require Import Lib.Vec2 C01.Model C01.Spec C01.Proofs_Base C01.Proofs_Walk C01.Proofs_Delta
+From Verif Require Import Lib.VecN C01.Model C01.Spec C01.Proofs_Base C01.Proofs_Walk C01.Proofs_Delta
   C01.Proofs_PodList.
 Import ListNotations.
 Open Scope Z_scope.
+
+Section WithDim.
+Context {D : Dim}.
 
 Record InvQ (s : state) : Prop := {
   iq_shape : ShapeOk (st_sh s);
@@ -335,10 +338,10 @@ Proof.
       apply nodup_all_upd_add; [exact Hnd | eapply find_some_in_names; eauto | exact Hids | exact Hfresh].
     + intros q0 Hq0. apply qok_same_RU; [apply Hq; exact Hq0 | | | | |];
         (destruct (Z.eq_dec (q_name q0) q) as [E|E]; [rewrite E, HP'q | rewrite (HP'o _ E); try reflexivity]).
-      * unfold self_req. rewrite vsum_app2. cbn. apply vadd_0_r.
-      * unfold self_np. rewrite vsum_app2. cbn. apply vadd_0_r.
-      * unfold self_used. rewrite vsum_app2. cbn. apply vadd_0_r.
-      * unfold self_npused. rewrite vsum_app2. cbn. apply vadd_0_r.
+      * unfold self_req. rewrite vsum_app2. cbn. rewrite !vadd_0_r. reflexivity.
+      * unfold self_np. rewrite vsum_app2. cbn. rewrite !vadd_0_r. reflexivity.
+      * unfold self_used. rewrite vsum_app2. cbn. rewrite !vadd_0_r. reflexivity.
+      * unfold self_npused. rewrite vsum_app2. cbn. rewrite !vadd_0_r. reflexivity.
       * apply Forall_app. split; [rewrite <- E; apply (Hq q0 Hq0)|]. constructor; [|constructor].
         unfold pi_pos, e0. cbn. repeat split; apply vnonneg_zero.
       * apply (Hq q0 Hq0).
@@ -406,3 +409,5 @@ Proof.
       inversion Hp; subst. assumption.
     + apply (Hq q0 Hq0).
 Qed.
+
+End WithDim.
